@@ -114,6 +114,177 @@ fn recase(c: &Value) -> Value {
     r.unwrap_or_else(|e| json!({"status":"panic","msg":panic_msg(e)}))
 }
 
+/// C09 on the implementation: tiling, true positions, per-kind spelling, suffix re-lexing.
+fn fixed_spellings(t: &Token) -> Vec<String> {
+    match t {
+        Token::Neq => vec!["<>".into(), "!=".into()],
+        other => vec![other.to_string()],
+    }
+}
+
+fn lexprop(c: &Value) -> Value {
+    use sqlparser::tokenizer::Whitespace as W;
+    let d = dialect_by_name(c["dialect"].as_str().unwrap());
+    let sql = c["sql"].as_str().unwrap();
+    let unescape = c["unescape"].as_bool().unwrap_or(true);
+    let r = std::panic::catch_unwind(std::panic::AssertUnwindSafe(|| {
+        let toks = match tokenize_loc(d.as_ref(), sql, unescape) { Ok(t) => t, Err(_) => return json!({"status":"lexerr"}) };
+        let chars: Vec<char> = sql.chars().collect();
+        let offs = token_offsets(sql, &toks);
+        let mut problems: Vec<String> = vec![];
+        if toks.is_empty() {
+            if !chars.is_empty() { problems.push("no tokens for a non-empty input".into()); }
+            return json!({"status": if problems.is_empty() {"ok"} else {"bad"}, "problems": problems, "tokens": 0});
+        }
+        if offs[0] != 0 { problems.push(format!("first token does not start at offset 0 but {}", offs[0])); }
+        for i in 0..toks.len() {
+            if offs[i] == usize::MAX || offs[i] >= offs[i + 1] || offs[i + 1] > chars.len() {
+                problems.push(format!("token {} ({}) has a position that is not strictly increasing / inside the input", i, toks[i].token));
+                return json!({"status":"bad","problems":problems});
+            }
+        }
+        for (i, t) in toks.iter().enumerate() {
+            let slice: String = chars[offs[i]..offs[i + 1]].iter().collect();
+            let ok = match &t.token {
+                Token::Word(w) if w.quote_style.is_none() => slice == w.value,
+                Token::Word(w) => {
+                    let q = w.quote_style.unwrap();
+                    let e = match q { '[' => ']', c => c };
+                    let body_ok = if unescape { true } else { slice.chars().count() >= 2 && slice[q.len_utf8()..slice.len() - e.len_utf8()] == w.value };
+                    slice.starts_with(q) && slice.ends_with(e) && slice.chars().count() >= 2 && body_ok
+                }
+                Token::Number(s, l) => slice == format!("{}{}", s, if *l { "L" } else { "" }),
+                Token::Char(ch) => slice == ch.to_string(),
+                Token::Placeholder(s) | Token::CustomBinaryOperator(s) => &slice == s,
+                Token::Whitespace(W::Space) => slice.chars().count() == 1 && slice.chars().all(|c| c.is_whitespace()),
+                Token::Whitespace(W::Tab) => slice == "\t",
+                Token::Whitespace(W::Newline) => slice == "\n" || slice == "\r" || slice == "\r\n",
+                Token::Whitespace(W::SingleLineComment { prefix, comment }) => slice == format!("{prefix}{comment}"),
+                Token::Whitespace(W::MultiLineComment(s)) => slice == format!("/*{s}*/"),
+                Token::HexStringLiteral(s) if slice.starts_with("0x") => slice == format!("0x{s}"),
+                Token::SingleQuotedString(b) | Token::DoubleQuotedString(b) | Token::NationalStringLiteral(b) | Token::HexStringLiteral(b)
+                | Token::SingleQuotedByteStringLiteral(b) | Token::DoubleQuotedByteStringLiteral(b)
+                | Token::SingleQuotedRawStringLiteral(b) | Token::DoubleQuotedRawStringLiteral(b) => {
+                    // prefix letter (any case) + quote + body + quote; body verbatim when un-escaping is off
+                    let q = if matches!(&t.token, Token::DoubleQuotedString(_) | Token::DoubleQuotedByteStringLiteral(_) | Token::DoubleQuotedRawStringLiteral(_)) { '"' } else { '\'' };
+                    let sc: Vec<char> = slice.chars().collect();
+                    let p = if matches!(&t.token, Token::SingleQuotedString(_) | Token::DoubleQuotedString(_)) { 0 } else { 1 };
+                    sc.len() >= p + 2 && sc[p] == q && sc[sc.len() - 1] == q
+                        && (unescape || sc[p + 1..sc.len() - 1].iter().collect::<String>() == *b)
+                }
+                Token::TripleSingleQuotedString(b) | Token::TripleDoubleQuotedString(b)
+                | Token::TripleSingleQuotedByteStringLiteral(b) | Token::TripleDoubleQuotedByteStringLiteral(b)
+                | Token::TripleSingleQuotedRawStringLiteral(b) | Token::TripleDoubleQuotedRawStringLiteral(b) => {
+                    let sc: Vec<char> = slice.chars().collect();
+                    let p = if matches!(&t.token, Token::TripleSingleQuotedString(_) | Token::TripleDoubleQuotedString(_)) { 0 } else { 1 };
+                    sc.len() >= p + 6 && (unescape || sc[p + 3..sc.len() - 3].iter().collect::<String>() == *b)
+                }
+                Token::EscapedStringLiteral(_) => { let lc = slice.to_lowercase(); lc.starts_with("e'") && slice.ends_with('\'') }
+                Token::UnicodeStringLiteral(_) => { let lc = slice.to_lowercase(); lc.starts_with("u&'") && slice.ends_with('\'') }
+                Token::DollarQuotedString(dq) => {
+                    let tag = dq.tag.clone().unwrap_or_default();
+                    slice == format!("${tag}${}${tag}$", dq.value)
+                }
+                other => fixed_spellings(other).contains(&slice),
+            };
+            if !ok { problems.push(format!("token {} {:?} does not spell its source slice {:?}", i, t.token, slice)); }
+        }
+        // suffix re-lexing at a few token boundaries
+        let n = toks.len();
+        let picks: Vec<usize> = if n <= 6 { (1..n).collect() } else { vec![1, n / 3, n / 2, n - 1] };
+        for i in picks {
+            let suffix: String = chars[offs[i]..].iter().collect();
+            match tokenize_loc(d.as_ref(), &suffix, unescape) {
+                Ok(ts) => {
+                    let a: Vec<&Token> = ts.iter().map(|t| &t.token).collect();
+                    let b: Vec<&Token> = toks[i..].iter().map(|t| &t.token).collect();
+                    if a != b { problems.push(format!("tokenizing the suffix at token {} gives different tokens", i)); }
+                    else {
+                        // relocated positions
+                        let (l0, c0) = (toks[i].location.line, toks[i].location.column);
+                        for (x, y) in ts.iter().zip(&toks[i..]) {
+                            let (el, ec) = if y.location.line == l0 { (1, y.location.column - c0 + 1) } else { (y.location.line - l0 + 1, y.location.column) };
+                            if (x.location.line, x.location.column) != (el, ec) { problems.push(format!("suffix at token {} relocates positions wrongly", i)); break; }
+                        }
+                    }
+                }
+                Err(e) => problems.push(format!("tokenizing the suffix at token {} fails: {}", i, e)),
+            }
+        }
+        json!({"status": if problems.is_empty() {"ok"} else {"bad"}, "problems": problems, "tokens": toks.len()})
+    }));
+    r.unwrap_or_else(|e| json!({"status":"panic","problems":[panic_msg(e)]}))
+}
+
+/// C07 on the implementation: replace inter-token whitespace runs by other layouts.
+fn wsvariant(c: &Value) -> Value {
+    let dn = c["dialect"].as_str().unwrap();
+    let d = dialect_by_name(dn);
+    let sql = c["sql"].as_str().unwrap();
+    let seed = c["seed"].as_u64().unwrap_or(1);
+    let max_variants = c["max"].as_u64().unwrap_or(8) as usize;
+    let r = std::panic::catch_unwind(std::panic::AssertUnwindSafe(|| {
+        let toks = match tokenize_loc(d.as_ref(), sql, true) { Ok(t) => t, Err(_) => return json!({"status":"skip"}) };
+        let chars: Vec<char> = sql.chars().collect();
+        let offs = token_offsets(sql, &toks);
+        for i in 0..toks.len() { if offs[i] == usize::MAX || offs[i] >= offs[i+1] || offs[i+1] > chars.len() { return json!({"status":"skip"}); } }
+        // maximal whitespace runs strictly between two non-whitespace tokens
+        let mut runs: Vec<(usize, usize)> = vec![];
+        let mut i = 0;
+        while i < toks.len() {
+            if is_ws(&toks[i].token) {
+                let st = i;
+                while i < toks.len() && is_ws(&toks[i].token) { i += 1; }
+                if st > 0 && i < toks.len() { runs.push((offs[st], offs[i])); }
+            } else { i += 1; }
+        }
+        if runs.is_empty() { return json!({"status":"noruns"}); }
+        let mut layouts: Vec<String> = vec![" ".into(), "  ".into(), "\t".into(), "\n".into(), "\r".into(), "\r\n".into(), "\u{a0}".into(),
+            " /* c */ ".into(), " /* /* n */ */ ".into(), " -- c\n".into(), "\n-- c\n ".into(), " # c\n".into(), " // c\n".into(), "\t\n \r\n".into(), "\u{2003}".into()];
+        // keep the layouts this dialect lexes purely as whitespace/comments
+        layouts.retain(|w| match tokenize_loc(d.as_ref(), w, true) { Ok(ts) => !ts.is_empty() && ts.iter().all(|t| is_ws(&t.token)), Err(_) => false });
+        let base_tokens: Vec<&Token> = toks.iter().map(|t| &t.token).filter(|t| !is_ws(t)).collect();
+        let base_parse = parse_opts(d.as_ref(), sql, true, false, None);
+        let mut rng = Rng::new(seed);
+        let mut tried = 0;
+        let total = runs.len() * layouts.len();
+        let mut order: Vec<usize> = (0..total).collect();
+        for k in (1..order.len()).rev() { let j = rng.below((k + 1) as u64) as usize; order.swap(k, j); }
+        for idx in order.into_iter().take(max_variants) {
+            let (a, b) = runs[idx / layouts.len()];
+            let w = &layouts[idx % layouts.len()];
+            let cur: String = chars[a..b].iter().collect();
+            if &cur == w { continue; }
+            let variant: String = chars[..a].iter().collect::<String>() + w + &chars[b..].iter().collect::<String>();
+            tried += 1;
+            match tokenize_loc(d.as_ref(), &variant, true) {
+                Ok(vt) => {
+                    let vtoks: Vec<&Token> = vt.iter().map(|t| &t.token).filter(|t| !is_ws(t)).collect();
+                    if vtoks != base_tokens {
+                        return json!({"status":"diff","level":"tokens","variant":variant,"replaced":cur,"by":w});
+                    }
+                }
+                Err(e) => return json!({"status":"diff","level":"tokens","variant":variant,"replaced":cur,"by":w,"detail":format!("variant does not tokenize: {e}")}),
+            }
+            let vp = parse_opts(d.as_ref(), &variant, true, false, None);
+            match (&base_parse, &vp) {
+                (Ok(x), Ok(y)) if x == y => {}
+                (Err(_), Err(_)) => {}
+                (Ok(_), Ok(_)) => return json!({"status":"diff","level":"tree","variant":variant,"replaced":cur,"by":w,"detail":"different trees"}),
+                (Ok(_), Err(e)) => return json!({"status":"diff","level":"tree","variant":variant,"replaced":cur,"by":w,"detail":format!("accepted text becomes rejected: {e}")}),
+                (Err(e), Ok(_)) => return json!({"status":"diff","level":"tree","variant":variant,"replaced":cur,"by":w,"detail":format!("rejected text ({e}) becomes accepted")}),
+            }
+        }
+        json!({"status":"same","variants":tried,"runs":runs.len(),"layouts":layouts.len(),"accepted":base_parse.is_ok()})
+    }));
+    r.unwrap_or_else(|e| json!({"status":"panic","detail":panic_msg(e)}))
+}
+
+fn lex(c: &Value) -> Value {
+    let d = dialect_by_name(c["dialect"].as_str().unwrap());
+    lex_outcome(d.as_ref(), c["sql"].as_str().unwrap(), c["unescape"].as_bool().unwrap_or(true))
+}
+
 fn main() {
     quiet_panics();
     let args: Vec<String> = std::env::args().collect();
@@ -121,6 +292,9 @@ fn main() {
     match what {
         "make_word" => for_each_case(make_word),
         "recase" => for_each_case(recase),
+        "lex" => for_each_case(lex),
+        "lexprop" => for_each_case(lexprop),
+        "wsvariant" => for_each_case(wsvariant),
         _ => {
             eprintln!("usage: drive make_word < cases.jsonl");
             std::process::exit(2);
